@@ -102,6 +102,9 @@ class TcpUpstreamConnectionHandler(ABC):
                 logger.info('Upstream SSLWantWriteError, will retry')
                 return False
             except BrokenPipeError:     # pragma: no cover
+                # Upstream stopped receiving.  What it sent before is
+                # still read and handed on until it signals end of stream.
                 logger.debug('BrokenPipeError when flushing to upstream')
-                return True
+                self.upstream.buffer = []
+                self.upstream._num_buffer = 0
         return False
